@@ -31,7 +31,8 @@ bound proves that one of the named calls violates the tolerance, a residual with
 KNOWN FINDINGS on the unchanged tree (known_findings_B3.json, each in a kind with its own `regime`): exact-zero values raise
 ValueError instead of returning 0; jacobi(n,a,b,x) = nan for a negative integer a in [-n,-1] and integer b; legendre(odd n >= 3, x)
 returns x for |x| < 2^(-2(p+10)-10); gegenbauer returns 0 when a is within ~2^-(p+40) of a pole of Gamma(2a); hyper() with p > q+1 (3F0, 3F1, 4F0, 4F1, 4F2) and a
-terminating degree n >= prec+30 raises NoConvergence or is silently inaccurate.
+terminating degree n >= prec+30 raises NoConvergence or is silently inaccurate; terminating hyp2f1 at x = 1 is evaluated through
+Gauss's gamma quotient and is accurate but not exact (about a quarter of the representable values are off by some ulps).
 NOT DECIDED: hyperu, whitm, whitw, meijerg, appellf1..4, hyper2d, bihyper, pcfd/pcfu/pcfv/pcfw, legenp/legenq off the
 polynomial (integer n, m) case, hermite/laguerre/... at non-integer degree, complex parameters/arguments, any single value of
 a non-terminating series at generic parameters (only the metamorphic residuals above), hyp2f1 on the cut x > 1, divergent
@@ -506,8 +507,17 @@ def _pq(c, v):
     return PQ(v)
 
 
-def g_2f1t(rng, p):
-    return [g_deg(rng, 120), g_q(rng), g_q(rng, lower=True), g_xh(rng, p)]
+def not1(gen):
+    """hyp2f1 at x = 1 goes through Gauss's gamma quotient even for terminating series: separate kinds"""
+    def g(rng, p):
+        for _ in range(30):
+            args = gen(rng, p)
+            if args[-1] != 1: return args
+        raise Skip("x = 1 only")
+    return g
+
+
+g_2f1t = not1(lambda rng, p: [g_deg(rng, 120), g_q(rng), g_q(rng, lower=True), g_xh(rng, p)])
 
 
 reg("hyp2f1_term", "hyp2f1", lambda c, n, b, cc, x: c.hyp2f1(-n, PQ(b), PQ(cc), M(c, x)),
@@ -515,12 +525,28 @@ reg("hyp2f1_term", "hyp2f1", lambda c, n, b, cc, x: c.hyp2f1(-n, PQ(b), PQ(cc), 
 reg("hyp2f1_term_b", "hyp2f1", lambda c, n, a, cc, x: c.hyp2f1(PQ(a), -n, PQ(cc), M(c, x)),
     lambda n, a, cc, x: q_hyper([a, -n], [cc], x), g_2f1t, w=0.8, regime=TERM, exact=True)
 reg("hyp2f1_term2", "hyp2f1", lambda c, n, m, cc, x: c.hyp2f1(-n, -m, PQ(cc), M(c, x)),
-    lambda n, m, cc, x: q_hyper([-n, -m], [cc], x), lambda rng, p: [g_deg(rng, 60), g_deg(rng, 60), g_q(rng, lower=True), g_xh(rng, p)],
+    lambda n, m, cc, x: q_hyper([-n, -m], [cc], x), not1(lambda rng, p: [g_deg(rng, 60), g_deg(rng, 60), g_q(rng, lower=True), g_xh(rng, p)]),
     w=0.6, regime=TERM, exact=True)
 reg("hyp2f1_term_negc", "hyp2f1", lambda c, n, b, m, x: c.hyp2f1(-n, PQ(b), -m, M(c, x)),
     lambda n, b, m, x: q_hyper([-n, b], [-m], x),
-    lambda rng, p: (lambda n: [n, g_q(rng), n + rng.randint(1, 10), g_xh(rng, p)])(g_deg(rng, 40)),
+    not1(lambda rng, p: (lambda n: [n, g_q(rng), n + rng.randint(1, 10), g_xh(rng, p)])(g_deg(rng, 40))),
     w=0.5, regime="terminating-negint-lower", exact=True)
+# x = 1: accuracy only (Gauss's theorem is used: the value is accurate but not correctly rounded) ...
+reg("hyp2f1_term_at1", "hyp2f1", lambda c, n, b, cc: c.hyp2f1(-n, PQ(b), PQ(cc), 1), lambda n, b, cc: q_hyper([-n, b], [cc], 1),
+    lambda rng, p: [g_deg(rng, 60), g_q(rng), g_q(rng, lower=True)], w=0.6, regime="terminating-x=1")
+
+
+# ... and the exact clause on 2F1(-1, c d; c; 1) = 1 - d with a short dyadic d (known finding C22-hyp2f1-at1-not-exact)
+def g_at1_exact(rng, p):
+    while True:
+        cc = Fraction(rng.randint(-40, 40), rng.choice([2, 3, 4, 5, 7]))
+        d = Fraction(rng.randint(-40, 40), rng.choice([1, 2, 4, 8]))
+        if d in (0, 1) or cc == 0 or (cc.denominator == 1 and cc < 0): continue
+        return [cc * d, cc]
+
+
+reg("hyp2f1_term_at1_exact", "hyp2f1", lambda c, b, cc: c.hyp2f1(-1, PQ(b), PQ(cc), 1), lambda b, cc: q_hyper([-1, b], [cc], 1),
+    g_at1_exact, w=0.3, regime="terminating-x=1-exact-clause", exact=True)
 reg("hyp1f1_term", "hyp1f1", lambda c, n, b, x: c.hyp1f1(-n, PQ(b), M(c, x)), lambda n, b, x: q_hyper([-n], [b], x),
     lambda rng, p: [g_deg(rng, 120), g_q(rng, lower=True), g_xh(rng, p)], w=2.0, regime=TERM, exact=True)
 reg("hyp2f0_term", "hyp2f0", lambda c, n, b, x: c.hyp2f0(-n, PQ(b), M(c, x)), lambda n, b, x: q_hyper([-n, b], [], x),
